@@ -8,12 +8,14 @@ import (
 	"path/filepath"
 
 	"verifharness/core"
+	"verifharness/props/c11"
 	"verifharness/props/c16"
 )
 
 type runner func(tier string, seed int64, outDir string, replay string) (*core.Result, error)
 
 var drivers = map[string]runner{
+	"C11": c11.Run,
 	"C16": c16.Run,
 }
 
